@@ -284,6 +284,13 @@ class FuncGen:
         if rest.startswith('asm'):
             return self.asm(res, rest)
         # optional function type "(i8*, ...)" is consumed by the type parser as part of rt ('fn'); callee follows
+        if rest.startswith('bitcast ('):
+            # call through a function-pointer cast of a known function (K&R prototypes): bitcast (T ()* @f to T (...)*)(args)
+            j0 = match_close(rest, rest.index('('), '(', ')')
+            mm = re.search(r'(@"[^"]+"|@[\w.$-]+)', rest[:j0])
+            if not mm:
+                raise IRError('call form: ' + ln)
+            rest = mm.group(1) + rest[j0 + 1:]
         m = re.match(r'(@"[^"]+"|@[\w.$-]+|%[\w.$-]+)\s*\(', rest)
         if not m:
             raise IRError('call form: ' + ln)
@@ -316,6 +323,20 @@ class FuncGen:
             self.memcpy(args)
             if res:
                 self.emit('%s = %s;' % (self.dest(res), cargs[0]))
+            return
+        if name.startswith('llvm.ctpop.'):
+            self.emit('%svm_popcount(%s);' % (d, cargs[0]))
+            return
+        m2 = re.match(r'llvm\.(umin|umax|smin|smax)\.i(\d+)', name)
+        if m2:
+            bits = int(m2.group(2))
+            a, b = cargs[0], cargs[1]
+            if m2.group(1)[0] == 's':
+                A, B = tr.sext(a, bits), tr.sext(b, bits)
+            else:
+                A, B = a, b
+            cmpop = '<' if m2.group(1).endswith('min') else '>'
+            self.emit('%s(%s %s %s) ? %s : %s;' % (d, A, cmpop, B, a, b))
             return
         if name.startswith('llvm.'):
             raise IRError('intrinsic not supported: ' + name)
@@ -597,8 +618,9 @@ def gen_memory_cbmc(tr):
                 out.append('__CPROVER_thread_local W %s;' % sh)
                 tr.shadow_in[t].append('%s = %s;' % (sh, m if sym else '%dUL' % init))
                 tr.shadow_out[t].append('%s = %s;' % (m, sh))
-                arms_ld[cell] = 'case %dUL: %sreturn vm_tid == %d ? %s : %s;' % (addr, live, t, sh, m)
-                arms_st[cell] = 'case %dUL: %sif (vm_tid == %d) %s = v; else %s = v; return;' % (addr, live, t, sh, m)
+                g = ('VM_ASSERT(vm_tid == %d || vm_tid == 0, "encoding: cell declared exclusive to one thread is accessed by another (no verdict)"); ' % t) if cell in tr.guarded else ''
+                arms_ld[cell] = 'case %dUL: %s%sreturn vm_tid == %d ? %s : %s;' % (addr, live, g, t, sh, m)
+                arms_st[cell] = 'case %dUL: %s%sif (vm_tid == %d) %s = v; else %s = v; return;' % (addr, live, g, t, sh, m)
             else:
                 stats['shared'] += 1
                 arms_ld[cell] = 'case %dUL: %sreturn %s;' % (addr, live, m)
